@@ -281,19 +281,21 @@ def analyse(res: Result, sim: simnet.Sim, sc: Dict[str, Any], model: ResponderMo
                 just_lo, just_hi = min(just_lo, jl), max(just_hi, jh)
             obligations.append(Obligation(ident, serve_lo, serve_hi, just_lo, just_hi, "+".join(sorted(classes)), tcshape))
 
-    # duplicate-datagram guard of the listener: identical bytes as the previous datagram processed on that socket less than
-    # 1000 ms ago (no QU question) are ignored - such arrivals create no obligation (that rule itself is C16's subject)
+    # duplicate-datagram guard of the listener: identical bytes as the previous datagram processed on that socket, from the
+    # same sender, less than 1000 ms ago (no QU question) are ignored - such arrivals create no obligation (that rule itself is C16's subject)
     supp_flags: List[bool] = []      # aligned with out["before"] (the injected datagrams in processing order)
-    per_fd: Dict[int, Tuple[bytes, float]] = {}
+    per_fd: Dict[int, Tuple[bytes, float, Tuple]] = {}
     for d in sim.net.deliveries:
         if d["t"] < T0 - 1e-6:
             continue
         last = per_fd.get(d["fd"])
-        dup = last is not None and last[0] == d["data"] and d["t"] - 1000.0 < last[1]
+        src2 = (d["src"][0], d["src"][1])
+        # (same bytes from the same sender: a second querier sending identical bytes is owed its own answer - C11)
+        dup = last is not None and last[0] == d["data"] and d["t"] - 1000.0 < last[1] and last[2] == src2
         if d["tx"] < 0:
             supp_flags.append(dup)
         if not dup:
-            per_fd[d["fd"]] = (d["data"], d["t"])
+            per_fd[d["fd"]] = (d["data"], d["t"], src2)
     # arrivals in the order in which the host actually processed them (same-instant deliveries have no defined order)
     ordered: List[Dict[str, Any]] = []
     used: Set[int] = set()
